@@ -21,9 +21,9 @@ FAM = {
     "C02": dict(fam="make", events=("Make",)),
     "C03": dict(fam="rt", events=("RT", "RT2")),
     "C06": dict(fam="convert", events=("Convert",)),
-    "C10": dict(fam="limits", events=("Break", "Make", "Convert", "RT", "RT2", "Next", "Prev")),
+    "C10": dict(fam="limits,fixed", events=("Break", "Make", "Convert", "RT", "RT2", "Next", "Prev")),
     "C11": dict(fam="trans", events=("Next", "Prev", "ChainEnd")),
-    "C14": dict(fam="history", events=("Break", "Make", "Next", "Prev")),
+    "C14": dict(fam="history,fixed", events=("Break", "Make", "Next", "Prev")),
 }
 
 
@@ -127,8 +127,8 @@ def run(pid, tier, seed):
         lines = open(path).read().splitlines()
         names = {}
         for ln in lines:
-            if ln.startswith('{"e":"Load"'):
-                m = re.match(r'\{"e":"Load","z":(\d+),"name":"((?:[^"\\]|\\.)*)"', ln)
+            if ln.startswith('{"e":"Load'):
+                m = re.match(r'\{"e":"Load(?:Fixed)?","z":(\d+),"name":"((?:[^"\\]|\\.)*)"', ln)
                 if m:
                     names[int(m.group(1))] = m.group(2)
                 continue
